@@ -610,7 +610,7 @@ func newMessageFieldFactory(schema j5schema.FieldSchema, desc protoreflect.Messa
 		return &anyFieldFactory{schema: st}, nil
 
 	default:
-		panic(fmt.Sprintf("invalid schema for message field: %T", schema))
+		return nil, fmt.Errorf("invalid schema for message field: %T", schema)
 	}
 }
 
@@ -636,6 +636,6 @@ func newFieldFactory(schema j5schema.FieldSchema, field protoreflect.FieldDescri
 		return &scalarFieldFactory{schema: st}, nil
 
 	default:
-		panic(fmt.Sprintf("invalid schema for leaf field: %T", schema))
+		return nil, fmt.Errorf("invalid schema for leaf field: %T", schema)
 	}
 }
